@@ -1214,6 +1214,8 @@ def simplify_call(term, c, t):
                 return ('agg', 'std::result::Result::Ok', FrozenDict((('0', x),)), 0) if some else ('agg', 'std::result::Result::Err', FrozenDict((('0', args[1]),)), 1)
             if last in ('is_some', 'is_none') and path.startswith('std::option::Option'):
                 return ('int', int(some == (last == 'is_some')), None)
+            if last == 'unwrap_or' and len(args) == 2 and path.startswith('std::option::Option'):
+                return x if some else args[1]
             if c['path'].endswith('Try::branch'):
                 return ('agg', 'std::ops::ControlFlow::Continue', FrozenDict((('0', x),)), 0) if some else ('agg', 'std::ops::ControlFlow::Break', FrozenDict((('0', a0),)), 1)
         if a0[1] in ('std::result::Result::Ok', 'std::result::Result::Err'):
@@ -1221,6 +1223,8 @@ def simplify_call(term, c, t):
             x = a0[2].get('0')
             if last in ('is_ok', 'is_err') and path.startswith('std::result::Result'):
                 return ('int', int(okv == (last == 'is_ok')), None)
+            if last == 'unwrap_or' and len(args) == 2 and path.startswith('std::result::Result'):
+                return x if okv else args[1]
             if last == 'ok' and path.startswith('std::result::Result') and len(args) == 1:
                 return ('agg', 'std::option::Option::Some', FrozenDict((('0', x),)), 1) if okv else ('agg', 'std::option::Option::None', FrozenDict(()), 0)
             if c['path'].endswith('Try::branch'):
